@@ -14,5 +14,6 @@ CONSTANTS
   AdoptGuard = TRUE
   WeakMessager = TRUE
   CloseSend = "try"
+  DrainInLoop = TRUE
 INVARIANT ExportHist
 CHECK_DEADLOCK FALSE
